@@ -17,7 +17,11 @@ THEOREMS = [f"NumbersModel.Props.C13.{t}" for t in (
     "grouping_only_inserts", "sign_style", "places_exact", "decimal_reads_back", "round_sig_nearest",
     "auto_reads_back", "scientific_mantissa_partial", "base_reads_back", "base_no_spurious_zero",
     "base_rounds_nearest", "base_format_cases", "twos_complement_value", "fraction_fixed_nearest",
-    "fraction_parts_normal_form", "fraction_ndigit_partial", "rating_stars")]
+    "fraction_parts_normal_form", "fraction_ndigit", "limit_denominator_best", "fraction_ndigit_total", "rating_stars",
+    # custom number patterns (Model/CustomFmt.lean)
+    "format_types_as_modelled", "custom_percent_scale", "custom_digits_read_back", "custom_number_text_alphabet",
+    "custom_literals_pass_through", "custom_padding_only_pads", "custom_total", "custom_builder_well_formed",
+    "custom_api_total", "custom_scientific", "custom_dispatch")]
 PARTIAL = {
     "NumbersModel.Props.C13.fraction_ndigit_partial":
         "proved: whenever limit_denominator returns, 1 <= denominator <= 10^N - 1. Missing: the loop always returns for a "
@@ -504,6 +508,11 @@ def _run(ctx: Ctx):
             ctx.violation("rating-stars", f"rating {x!r} displays {text!r}", {"value": repr(x), "format": "rating"})
     ctx.correspond("star rating: 0..5 and out-of-range values", req, out, exhaustive=True)
 
+    # --- custom number patterns, text patterns, dispatch (checks/c13_custom.py) -------------------------------------------
+    from checks import c13_custom
+    c13_custom.run_custom(ctx, specials, seeded)
+    c13_custom.run_text_and_dispatch(ctx)
+
     # --- the third-party assumptions, directly ---------------------------------------------------------------------------
     bad = 0
     for x in specials + seeded:
@@ -517,6 +526,9 @@ def replay(data):
     warnings.showwarning = lambda *a, **k: None
     from numbers_parser import FractionAccuracy, NegativeNumberStyle
     i = dict(data.get("input", {}))
+    if str(i.get("format", "")).startswith("custom"):
+        from checks import c13_custom
+        return c13_custom.replay_custom(i)
     x = eval(i.pop("value"), {"__builtins__": {}}, {})  # repr of an int/float produced by this module
     kind = i.pop("format")
     if "negative_style" in i:
